@@ -535,7 +535,9 @@ func init() {
 			concCalls := []string{"s.reverse()", "s.upper()", "s.lower()", "s.capitalize()", "s.trim()", "s.trim(\"g\")", "s.first()", "s.last()", "s.len()", "s.at(2)", "s.truncate(4)", "s.truncate(4, \"--\")", "s.repeat(2)",
 				"s.split(\"-\").join(\"+\")", "s.contains(\"-\")", "s.raw()", "s.trimLeft()", "s.trimRight(\"7\")", "s.split(\"\").reverse().join(\"\")", "s.decimal()",
 				"a.reverse().join(\",\")", "a.join(\"/\")", "a.slice(1).join(\",\")", "a.append(n).join(\",\")", "a.prepend(n).join(\",\")", "a.contains(n)", "a.len()",
-				"n.str()", "n.decimal(\",\", 3)", "n.abs()", "n.float()", "n.len()", "f.str()", "f.round()", "f.ceil()", "f.floor()", "f.int()", "f.abs()", "(f / 3.0).round(2)", "f--", "f++", "n--", "(n == 3).then(s, f)"}
+				"n.str()", "n.decimal(\",\", 3)", "n.abs()", "n.float()", "n.len()", "f.str()", "f.round()", "f.ceil()", "f.floor()", "f.int()", "f.abs()", "(f / 3.0).round(2)", "f--", "f++", "n--", "(n == 3).then(s, f)",
+				// what varies from call to call, read through what cannot vary
+				"a.shuffle().len()", "a.shuffle().join(\",\").len()", "a.contains(a.rand())", "a.shuffle().contains(n)", "a.shuffle().shuffle().reverse().len()", "[a.rand()].len()", "s.split(\"\").shuffle().len()"}
 			secs = append(secs, core.Section{Name: "concurrent-built-ins", N: 8,
 				Run: func(c *core.Ctx, i int) {
 					const G, N = 8, 160
@@ -568,6 +570,24 @@ func init() {
 						o := plan[g][n]
 						want := o.want
 						return o.src, o.data, want
+					})
+				}})
+			// many goroutines shuffle and draw at once: every result is still an arrangement of (an element of) its receiver
+			secs = append(secs, core.Section{Name: "concurrent-shuffles", N: 4,
+				Run: func(c *core.Ctx, i int) {
+					const G, N = 16, 120
+					c.Input(map[string]any{"goroutines": G, "calls_each": N, "round": i})
+					c.Nontrivial(fmt.Sprint("shuffle-burst", i, c.Seed))
+					src := "{{ a.shuffle().len() }}|{{ a.shuffle().join(\",\").len() }}|{{ a.contains(a.rand()) }}|{{ a.shuffle().contains(a.shuffle().rand()) }}|{{ a.shuffle().shuffle().shuffle().len() }}|@each(v in a.shuffle()){{ a.contains(v) ? \"\" : \"lost\" }}@end|@for(k = 0; k < 150; k++){{ a.shuffle().len() == a.len() ? \"\" : \"short\" }}{{ a.contains(a.rand()) ? \"\" : \"stray\" }}@end|{{ a.len() }}"
+					concurrentBurst(c, G, N, func(g, n int) (string, map[string]any, string) {
+						k := 40 + (g+n)%30
+						xs := make([]int, k)
+						joined := k - 1
+						for j := range xs {
+							xs[j] = 100 + g*1000 + j
+							joined += len(fmt.Sprint(xs[j]))
+						}
+						return src, map[string]any{"a": xs}, fmt.Sprintf("%d|%d|1|1|%d|||%d", k, joined, k, k)
 					})
 				}})
 			// random tuples
